@@ -122,6 +122,7 @@ def gmres( LinOp, b, x0, N, max_iterations, threshold):
         # print('time 1',tme, ' k',k,' size ',q.shape[0])
         
         tme = datetime.datetime.now()
+        q_norm = tn.linalg.norm(q)
         for i in range(k+1):
             H[i,k] = tn.dot(q.squeeze(),Q[:,i])
             q = q - tn.reshape(H[i,k]*Q[:,i],[-1,1])
@@ -132,7 +133,8 @@ def gmres( LinOp, b, x0, N, max_iterations, threshold):
         # print('time 2',tme)
         
         tme = datetime.datetime.now()
-        breakdown = not h > 0    # the Krylov space is invariant (or exhausted): the solution lies in it, nothing more can be gained
+        # the Krylov space is invariant (or exhausted) when what is left of the new direction is zero up to roundoff: the solution lies in it, nothing more can be gained
+        breakdown = not h > 4 * tn.finfo(b.dtype).eps * q_norm
         if not breakdown:
             q = q / h
         H[k+1,k] = h
